@@ -50,7 +50,7 @@ prop(
 
 prop(
     "C16",
-    ["DivanModel.Props.C16"],
+    ["DivanModel.Props.C16", "DivanModel.Props.C16Tree"],
     [lab("sort", 4000, 150000), lab("reg", 1000, 30000)],
     level_text="Theorems on all byte strings: natural_cmp is a total preorder (reflexive, antisymmetric via swap, transitive) and digit runs compare by numeric value; argument names denoting integers are ordered by value; a strict comparator admits exactly one sorted permutation (so Rust's sort algorithm cannot matter) and --sortr is its exact reverse; sorting permutes. Tied to the code by the `sort` lab: pairs/triples through the real natural_cmp (laws re-evaluated on the implementation's own answers), comparator and sort_by over argument-name lists (ints, negatives, floats, text, mixed) x 3 attributes x 2 directions against the unique model order.",
     level_note="Trusted: Lean kernel; Rust's f64 FromStr (the lab passes the parsed bits; only float comparison is modelled); slice::sort_by returns a sorted permutation for a total preorder and may panic otherwise (observed: F8). Tree-level sibling order is covered by the tree lab.",
@@ -127,15 +127,15 @@ prop("C04", ["DivanModel.Props.C04"], BENCH_LABS,
 
 prop("C05", ["DivanModel.Props.C05"], BENCH_LABS,
      level_text="Theorems for every sorted sample list and sample size: fastest/slowest = min/max sample / s, median = middle (mean of the two middle) / s, mean = total / (s*len), hence fastest <= median, mean <= slowest; figures are picked through the index of the sample that supplied the time; per-input counter = sum/s; zero samples give all-zero time statistics. The bench lab compares the complete Stats (integer picoseconds; allocation figures as exact IEEE doubles recomputed in software) and requires that computing statistics never panics.",
-     level_note="Trusted: Lean kernel; bench lab; SoftFloat (round-to-nearest-even on non-negative normal doubles) is driver code, validated against the implementation on every case. Ties between differently-tallied samples are avoided by the generator (sort_unstable's choice is implementation-defined).",
+     level_note="Trusted: Lean kernel; bench lab; SoftFloat (round-to-nearest-even on non-negative normal doubles) is driver code, validated against the implementation on every case. Ties in duration between differently-tallied samples: sort_unstable's order among them is implementation-defined, so the model accepts the figures of any sample of the tied class (choosePicks) and nothing outside it.",
      trusted=BENCH_TRUST)
 
 prop("C19", ["DivanModel.Props.C19"], BENCH_LABS,
      level_text="Theorems: a run without sample_size starts at 1; after j rounds at or below 100 whole multiples of the precision and one above, sizes were 1,2,...,2^j, the mode is collect(2^j), exactly the T samples of that round are held and the remaining counter is n-T; every tuning round keeps only its own samples; max_time stops tuning. The bench lab runs tuned benchmarks under three precisions (1, 250, 999 ps) with constant/growing costs and max_time cutting tuning short.",
      level_note="Trusted: Lean kernel; bench lab; Timer::precision() is calibrated once per lab process on a uniform-step virtual clock (C11).", trusted=BENCH_TRUST)
 
-prop("C08", ["DivanModel.Props.C08"], BENCH_LABS,
-     level_text="Theorems on a transition system with any number of threads, every interleaving and panics in any work phase: in every reachable state, while a thread is in its timed section all threads have finished generating and clearing and none has started dropping; with the repair (an unwinding thread keeps its barrier appointments) every non-final reachable state has a successor (no hang); a step of one thread changes no other thread. The bench lab runs T in 2..4 threads with scripted panics at (thread, call) points, a watchdog for hangs, per-thread allocation figures and the overlap conditions evaluated on the global event order.",
+prop("C08", ["DivanModel.Props.C08"], BENCH_LABS + [lab("sbench-p250", 700, 15000, timeout=900)],
+     level_text="Theorems on a transition system with any number of threads, every interleaving and panics in any work phase: in every reachable state, while a thread is in its timed section all threads have finished generating and clearing and none has started dropping; with the repair (an unwinding thread keeps its barrier appointments) every non-final reachable state has a successor (no hang); a step of one thread changes no other thread. The bench lab runs T in 2..4 threads with scripted panics at (thread, call) points, a watchdog for hangs, per-thread allocation figures and the overlap conditions evaluated on the global event order; the sbench lab is the same lab built against the instrumented std (feature verif_shim) so that every Barrier::wait is an event in the per-thread traces: a complete sample must wait twice around the tally clear before its start timestamp and once after its end timestamp, and the model predicts the waits of unwinding threads (KeepAppointments).",
      level_note="Trusted: Lean kernel; bench lab; std::sync::Barrier semantics (release wait k only when all arrived) are the model's assumption; interleavings are those the OS scheduler produced (the theorem covers all, the lab samples).",
      trusted=BENCH_TRUST)
 
